@@ -5,7 +5,7 @@
    C04/Spec.v.  [final valid h] is the machine state after the history h (any sequence of
    kernel events and psutil calls, any number of generators advanced in any interleaving),
    [irun valid h] the same with the per-generator ghost records. *)
-From PV Require Import C04.Spec C04.ProofsText C04.Proofs C04.ProofsTable C04.ProofsIter C04.ProofsStale C04.ProofsExact C04.Legacy.
+From PV Require Import Gen.C04_Tables C04.ProofsGen C04.Spec C04.ProofsText C04.Proofs C04.ProofsTable C04.ProofsIter C04.ProofsStale C04.ProofsExact C04.Legacy.
 
 (* ---- text level ---- *)
 
@@ -502,3 +502,14 @@ Theorem C04_cache_change_is_commit : forall valid s e,
   exists g, (e = IterNext g \/ e = IterClose g) /\ gens (fst (step valid s e)) g = GDone /\ gens s g <> GDone.
 Proof. exact cache_change_is_commit. Qed.
 Print Assumptions C04_cache_change_is_commit.
+
+(* ---- fork safety (translator part: table regenerated from the source on every run) ---- *)
+
+(* every module-level synchronisation object (threading.Lock / RLock / Condition / ...) referenced by code reachable
+   from process_iter / pids / pid_exists is re-initialised in an os.register_at_fork(after_in_child=...) handler --
+   the table is empty, or all its entries are re-initialised -- so no lock held at fork time by a thread that does not
+   exist in the child can block these three functions in the child.  (Per-object locks of cached Process instances
+   are not in this table: see the fork cases of the harness.) *)
+Theorem C04_fork_safe_sync_objects : forallb sync_reinit gen_sync_objects = true.
+Proof. exact fork_safe_sync_objects. Qed.
+Print Assumptions C04_fork_safe_sync_objects.
